@@ -42,10 +42,20 @@ func podSpec(wl *Workload) corev1.PodSpec {
 			c.Ports = append(c.Ports, cp)
 		}
 	}
+	ps := corev1.PodSpec{Containers: []corev1.Container{c}}
 	if wl.SplitContainers {
-		return corev1.PodSpec{Containers: []corev1.Container{c, c2}}
+		ps.Containers = append(ps.Containers, c2)
 	}
-	return corev1.PodSpec{Containers: []corev1.Container{c}}
+	h := corev1.Container{Name: "helper", Image: "img3"}
+	switch wl.Helper {
+	case 1:
+		ps.Containers = append([]corev1.Container{h}, ps.Containers...)
+	case 2:
+		ps.Containers = append(ps.Containers, h)
+	case 3:
+		ps.InitContainers = []corev1.Container{h}
+	}
+	return ps
 }
 
 // Doc is one rendered manifest document.
